@@ -528,6 +528,34 @@ class Facts:
         for b in self.bodies:
             if b.get("parent"):
                 self.children_of.setdefault(b["parent"], []).append(b)
+        self._fold_literal_consts()
+
+    def _fold_literal_consts(self):
+        """A use of a crate-local `const NAME: T = <literal>;` reads as that literal (the name is a spelling of the number: `== NO_CONSUMERS`
+        for `== 0`).  Constants with a computed initialiser stay named."""
+        if self.data.get("_consts_folded"):
+            return
+        self.data["_consts_folded"] = True
+        lits = {}
+        for b in self.bodies:
+            if b["kind"].startswith("Const") and b.get("thir"):
+                r = strip(b["thir"]["root"])
+                neg = False
+                if isinstance(r, dict) and r.get("k") == "Unary" and r.get("op") == "Neg":
+                    r, neg = strip(r["e"]), True
+                if isinstance(r, dict) and r.get("k") == "Literal":
+                    lits[b["def"]] = (r, neg)
+        if not lits:
+            return
+        for b in self.bodies:
+            if not b.get("thir"):
+                continue
+            for x in walk(b["thir"]["root"]):
+                if x.get("k") == "NamedConst" and x.get("def") in lits:
+                    r, neg = lits[x["def"]]
+                    sp, ty, d = x.get("sp"), x.get("ty"), x["def"]
+                    x.clear()
+                    x.update({"k": "Literal", "ty": ty, "sp": sp, "lit": r["lit"], "neg": bool(r.get("neg")) != neg, "const_name": d})
 
     def body(self, d):
         return self.by_def.get(d)
